@@ -113,7 +113,7 @@ def run_check(prop: str, tier: str, runs=None, workers=None, budget_s=None, opts
     merged = merge(mod, results)
     merged["budget_exhausted"] = exhausted
     merged["runs_requested"] = n
-    merged["runs_completed"] = len([r for r in results if r["index"] >= 0 and not r.get("harness")])
+    merged["runs_completed"] = len([r for r in results if r["index"] >= 0 and "evals" in r])
     wall = time.monotonic() - t0
 
     # ------------------------------------------------------------ verdicts
@@ -188,7 +188,8 @@ def merge(mod, results):
     for r in results:
         if r.get("harness"):
             m["harness"].extend(r["harness"])
-            continue
+            if "evals" not in r:
+                continue
         m["evaluations"] += r.get("evals", 0)
         for k, v in (r.get("counters") or {}).items():
             _cadd(m["counters"], k, v)
